@@ -218,7 +218,7 @@ fn case_whist(c: &mut Cur) -> Result<Vec<W>, BadCase> {
             ShapeWriter::new(shp2.clone())
         };
         let mut results = vec![];
-        if ending == 2 || ending >= 3 {
+        if ending == 2 || (ending >= 3 && ending != 100) {
             // ending 2: everything through `write_shapes`; ending 3 + k: the last k calls (all writes) are handed
             // together to `write_shapes` after the calls before them were made one by one
             let ntail = if ending == 2 { calls.len() } else { ((ending - 3) as usize).min(calls.len()) };
@@ -281,13 +281,28 @@ fn case_whist(c: &mut Cur) -> Result<Vec<W>, BadCase> {
             if ending == 1 {
                 results.push(w.finalize());
             }
+            if ending == 100 {
+                // the caller's own code panics while the writer is alive: the writer is dropped by the unwinding
+                let mut rendered = vec![results.len() as W];
+                for r in &results {
+                    render_unit_res(r, &mut rendered);
+                }
+                std::panic::resume_unwind(Box::new(rendered));
+            }
             drop(w);
         }
         Some(results)
     }));
     let mut out = vec![];
     match r {
-        Err(_) => out.push(-4),
+        Err(payload) => match payload.downcast::<Vec<W>>() {
+            Ok(rendered) if ending == 100 => {
+                out.extend(rendered.iter());
+                render_dev(&shp, &mut out);
+                render_dev(&shx, &mut out);
+            }
+            _ => out.push(-4),
+        },
         Ok(None) => return Err(BadCase),
         Ok(Some(results)) => {
             out.push(results.len() as W);
@@ -665,11 +680,55 @@ static ALLOCATOR: Counting = Counting;
 /// result: [peak live bytes above the baseline, largest single request, 0 ok | 1 open error | 2 panic].
 fn case_alloc(c: &mut Cur) -> Result<Vec<W>, BadCase> {
     use std::sync::atomic::Ordering::Relaxed;
-    let has_shx = c.next()? == 1;
+    let mode = c.next()?;
+    let has_shx = mode == 1 || mode == 3;
     let shp = read_bytes(c)?;
     let shx = if has_shx { read_bytes(c)? } else { vec![] };
     if !c.at_end() {
         return Err(BadCase);
+    }
+    if mode >= 2 {
+        // modes 2 / 3: the same files on disk, opened by path (`ShapeReader::from_path`, which owns the buffered readers)
+        let base_dir = std::env::var("SFV_TMP").map(std::path::PathBuf::from).unwrap_or_else(|_| std::env::temp_dir());
+        let dir = base_dir.join(format!("a8_{}_{}", std::process::id(), PATH_CASES.fetch_add(1, Relaxed)));
+        let _ = std::fs::remove_dir_all(&dir);
+        std::fs::create_dir_all(&dir).map_err(|_| BadCase)?;
+        let p = dir.join("f.shp");
+        std::fs::write(&p, &shp).map_err(|_| BadCase)?;
+        if has_shx {
+            std::fs::write(dir.join("f.shx"), &shx).map_err(|_| BadCase)?;
+        }
+        let cap = shp.len() / 12 + shx.len() / 8 + 2;
+        drop((shp, shx));
+        let base = LIVE.load(Relaxed);
+        PEAK.store(base, Relaxed);
+        LARGEST.store(0, Relaxed);
+        let p2 = p.clone();
+        let r = std::panic::catch_unwind(std::panic::AssertUnwindSafe(move || -> W {
+            match ShapeReader::from_path(&p2) {
+                Err(_) => 1,
+                Ok(mut reader) => {
+                    let mut kept = vec![];
+                    {
+                        let mut it = reader.iter_shapes();
+                        while kept.len() < cap {
+                            match it.next() {
+                                None => break,
+                                Some(x) => kept.push(x),
+                            }
+                        }
+                    }
+                    let a = reader.read_nth_shape(0);
+                    drop((a, kept));
+                    drop(shapefile::read_shapes(&p2));
+                    0
+                }
+            }
+        }));
+        let peak = PEAK.load(Relaxed).saturating_sub(base);
+        let largest = LARGEST.load(Relaxed);
+        let _ = std::fs::remove_dir_all(&dir);
+        return Ok(vec![peak as W, largest as W, r.unwrap_or(2)]);
     }
     let cap = shp.len() / 12 + shx.len() / 8 + 2;
     let src2 = Source::new(shp.clone());
@@ -718,6 +777,17 @@ fn case_alloc(c: &mut Cur) -> Result<Vec<W>, BadCase> {
 /// -> per call result; entry counts (shp records, shx entries, dbf rows); per reader op its rendering.
 /// The calls of a history on the complete reader, rendered (shared by the in-memory and the path cases).
 fn run_pair_ops<T: std::io::Read + std::io::Seek, D: std::io::Read + std::io::Seek>(reader: &mut Reader<T, D>, ops: &[ROp], o: &mut Vec<W>) {
+    run_pair_ops_as::<T, D, Shape>(reader, ops, o, false)
+}
+
+/// The same with the typed entry points of the complete reader (`iter_shapes_and_records_as::<S, _>`,
+/// `read_as::<S, _>`) when `typed`; the untyped ones (`iter_shapes_and_records`, `read`) otherwise.
+fn run_pair_ops_as<T: std::io::Read + std::io::Seek, D: std::io::Read + std::io::Seek, S: ReadableShape + Into<Shape>>(
+    reader: &mut Reader<T, D>,
+    ops: &[ROp],
+    o: &mut Vec<W>,
+    typed: bool,
+) {
     for op in ops {
             match op {
             ROp::Iter(j) => {
@@ -725,7 +795,11 @@ fn run_pair_ops<T: std::io::Read + std::io::Seek, D: std::io::Read + std::io::Se
                 let mut items = vec![];
                 let mut ended = false;
                 {
-                    let mut it = reader.iter_shapes_and_records();
+                    let mut it: Box<dyn Iterator<Item = Result<(Shape, dbase::Record), Error>> + '_> = if typed {
+                        Box::new(reader.iter_shapes_and_records_as::<S, dbase::Record>().map(|r| r.map(|(s, rec)| (s.into(), rec))))
+                    } else {
+                        Box::new(reader.iter_shapes_and_records())
+                    };
                     while items.len() < limit {
                         match it.next() {
                             None => { ended = true; break; }
@@ -754,7 +828,11 @@ fn run_pair_ops<T: std::io::Read + std::io::Seek, D: std::io::Read + std::io::Se
                 Ok(n) => o.extend([0, n as W]),
                 Err(e) => { o.push(1); render_error(&e, o); }
             },
-            ROp::ReadAll => match reader.read() {
+            ROp::ReadAll => match (if typed {
+                reader.read_as::<S, dbase::Record>().map(|v| v.into_iter().map(|(s, rec)| (s.into(), rec)).collect::<Vec<(Shape, dbase::Record)>>())
+            } else {
+                reader.read()
+            }) {
                 Ok(v) => {
                     o.extend([0, v.len() as W]);
                     for (s, rec) in v {
@@ -780,12 +858,15 @@ fn case_pair(c: &mut Cur) -> Result<Vec<W>, BadCase> {
     for _ in 0..ncalls {
         let kind = c.next()?;
         match build(read_ctor(c)?) {
-            Ok(Shape::NullShape) => return Err(BadCase),
+            Ok(Shape::NullShape) if kind != 4 => return Err(BadCase),
             Ok(s) => calls.push((kind, s)),
             Err(()) => return Ok(vec![-3]),
         }
     }
-    if calls.iter().skip_while(|(k, _)| *k == 3).any(|(k, _)| *k == 3) {
+    if calls.iter().skip_while(|(k, _)| *k == 3 || *k == 4).any(|(k, _)| *k == 3 || *k == 4) {
+        return Err(BadCase);
+    }
+    if calls.iter().skip_while(|(k, _)| *k != 5).any(|(k, _)| *k != 5) {
         return Err(BadCase);
     }
     let nops = c.n()?;
@@ -805,15 +886,19 @@ fn case_pair(c: &mut Cur) -> Result<Vec<W>, BadCase> {
     let mut shp = Cursor::new(Vec::<u8>::new());
     let mut shx = Cursor::new(Vec::<u8>::new());
     let mut dbf = Cursor::new(Vec::<u8>::new());
+    // kind 5 (a suffix): the pairs handed together to the bulk helper `write_shapes_and_records` at the end
+    let nbulk = calls.iter().rev().take_while(|(k, _)| *k == 5).count();
+    let mut bulk_vec: Vec<(W, Shape)> = calls.split_off(calls.len() - nbulk);
     let r = std::panic::catch_unwind(std::panic::AssertUnwindSafe(|| {
         let mut out: Vec<W> = vec![];
         {
             let mut sw = ShapeWriter::with_shx(&mut shp, &mut shx);
-            out.push(calls.len() as W);
+            out.push((calls.len() + (nbulk > 0) as usize) as W);
             // kind 3 (a prefix): written through the bare ShapeWriter before it is wrapped into the complete writer
-            let npre = calls.iter().take_while(|(k, _)| *k == 3).count();
-            for (_, s) in calls.iter().take(npre) {
-                let r = with_concrete!(s, x => sw.write_shape(x), unreachable!());
+            // kind 4 (in the prefix, with the null constructor): `finalize` of the bare ShapeWriter
+            let npre = calls.iter().take_while(|(k, _)| *k == 3 || *k == 4).count();
+            for (k, s) in calls.iter().take(npre) {
+                let r = if *k == 4 { sw.finalize() } else { with_concrete!(s, x => sw.write_shape(x), unreachable!()) };
                 render_unit_res(&r, &mut out);
             }
             let tw = dbase::TableWriterBuilder::new()
@@ -828,6 +913,44 @@ fn case_pair(c: &mut Cur) -> Result<Vec<W>, BadCase> {
                     _ => { rec.insert("idx".to_string(), dbase::FieldValue::Character(Some("x".to_string()))); }
                 }
                 let r = with_concrete!(s, x => w.write_shape_and_record(x, &rec), unreachable!());
+                render_unit_res(&r, &mut out);
+            }
+            if nbulk > 0 {
+                let first = calls.len();
+                let recs: Vec<dbase::Record> = (first..first + nbulk)
+                    .map(|i| {
+                        let mut rec = dbase::Record::default();
+                        rec.insert("idx".to_string(), dbase::FieldValue::Numeric(Some(i as f64)));
+                        rec
+                    })
+                    .collect();
+                let bulk_shapes: Vec<Shape> = std::mem::take(&mut bulk_vec).into_iter().map(|(_, s)| s).collect();
+                let first_type = bulk_shapes[0].shapetype();
+                macro_rules! bulk_as {
+                    ($T:ty) => {{
+                        let v: Result<Vec<$T>, _> = bulk_shapes.into_iter().map(<$T>::try_from).collect();
+                        match v {
+                            Ok(v) => w.write_shapes_and_records(v.iter().zip(recs.iter())),
+                            Err(_) => return vec![-1],
+                        }
+                    }};
+                }
+                let r = match first_type {
+                    ShapeType::Point => bulk_as!(Point),
+                    ShapeType::PointM => bulk_as!(PointM),
+                    ShapeType::PointZ => bulk_as!(PointZ),
+                    ShapeType::Polyline => bulk_as!(Polyline),
+                    ShapeType::PolylineM => bulk_as!(PolylineM),
+                    ShapeType::PolylineZ => bulk_as!(PolylineZ),
+                    ShapeType::Polygon => bulk_as!(Polygon),
+                    ShapeType::PolygonM => bulk_as!(PolygonM),
+                    ShapeType::PolygonZ => bulk_as!(PolygonZ),
+                    ShapeType::Multipoint => bulk_as!(Multipoint),
+                    ShapeType::MultipointM => bulk_as!(MultipointM),
+                    ShapeType::MultipointZ => bulk_as!(MultipointZ),
+                    ShapeType::Multipatch => bulk_as!(Multipatch),
+                    ShapeType::NullShape => return vec![-1],
+                };
                 render_unit_res(&r, &mut out);
             }
         }
@@ -1157,7 +1280,7 @@ fn case_path(c: &mut Cur) -> Result<Vec<W>, BadCase> {
     Ok(out)
 }
 
-/// Kind 17: the complete reader on given files.  [shp bytes; has_shx 0|1; shx bytes (if has_shx); nrows; nops; ops as in
+/// Kind 17: the complete reader on given files.  [req (-1 generic | type code: the typed entry points); shp bytes; has_shx 0|1; shx bytes (if has_shx); nrows; nops; ops as in
 /// kind 9]: a table of nrows rows (idx = 0..nrows-1) is written in memory with dbase, then
 /// `Reader::new(ShapeReader::with_shx | new, dbase::Reader)` runs the ops.  -> as the reader part of kind 9.
 const K_PAIR_FILE: W = 17;
@@ -1165,6 +1288,7 @@ const K_PAIR_FILE: W = 17;
 fn case_pair_file(c: &mut Cur) -> Result<Vec<W>, BadCase> {
     use std::convert::TryInto;
     use std::io::Cursor;
+    let req = c.next()?;
     let shp = read_bytes(c)?;
     let has_shx = c.next()? == 1;
     let shx = if has_shx { read_bytes(c)? } else { vec![] };
@@ -1212,7 +1336,23 @@ fn case_pair_file(c: &mut Cur) -> Result<Vec<W>, BadCase> {
         };
         o.push(0);
         let mut reader = Reader::new(sr, dr);
-        run_pair_ops(&mut reader, &ops, &mut o);
+        match req {
+            -1 => run_pair_ops(&mut reader, &ops, &mut o),
+            1 => run_pair_ops_as::<_, _, Point>(&mut reader, &ops, &mut o, true),
+            21 => run_pair_ops_as::<_, _, PointM>(&mut reader, &ops, &mut o, true),
+            11 => run_pair_ops_as::<_, _, PointZ>(&mut reader, &ops, &mut o, true),
+            3 => run_pair_ops_as::<_, _, Polyline>(&mut reader, &ops, &mut o, true),
+            23 => run_pair_ops_as::<_, _, PolylineM>(&mut reader, &ops, &mut o, true),
+            13 => run_pair_ops_as::<_, _, PolylineZ>(&mut reader, &ops, &mut o, true),
+            5 => run_pair_ops_as::<_, _, Polygon>(&mut reader, &ops, &mut o, true),
+            25 => run_pair_ops_as::<_, _, PolygonM>(&mut reader, &ops, &mut o, true),
+            15 => run_pair_ops_as::<_, _, PolygonZ>(&mut reader, &ops, &mut o, true),
+            8 => run_pair_ops_as::<_, _, Multipoint>(&mut reader, &ops, &mut o, true),
+            28 => run_pair_ops_as::<_, _, MultipointM>(&mut reader, &ops, &mut o, true),
+            18 => run_pair_ops_as::<_, _, MultipointZ>(&mut reader, &ops, &mut o, true),
+            31 => run_pair_ops_as::<_, _, Multipatch>(&mut reader, &ops, &mut o, true),
+            _ => o.push(-1),
+        }
         o
     }));
     Ok(rr.unwrap_or_else(|_| vec![2]))
